@@ -14,10 +14,14 @@ P("C32",
              "the component call sites are covered by trace inclusion on sampled assemblies only.",
   level_note="PARTIAL: the call sites in mem/ are not modelled; they are sampled by running real assemblies (requester agent, "
              "ROB, four cache kinds, ideal/banked/DRAM memory) with a recording tracer on every component and buffer tracing on "
-             "every port and evaluating trace_wf on the recorded event list inside Coq. Trusted: Coq kernel + vm_compute; the Go "
-             "harness (recorder, string numbering); the shared memasm assembly builder.",
-  assumptions=["quiescence of a control history means: the history ends with Enable+Reset of every module (a reset of one module "
-               "alone legitimately strands the requests of the modules above it)",
+             "every port and evaluating trace_wf on the recorded event list inside Coq (the Coq verdict is also compared with an "
+             "independent Go implementation of the acceptor). Sampling found five defects: three were fixed in /repo (write-through "
+             "cache, ROB, writeback req_out/evict), a writeback residual, DRAM and tracing-without-buffer-tracing are known findings; "
+             "TLB/MMU stacks are not sampled. Trusted: Coq kernel + vm_compute; the Go harness (recorder, string numbering); the "
+             "shared memasm assembly builder.",
+  assumptions=["quiescence of a control history means: the history ends with Enable+Reset of every module, top-down and then bottom-up, "
+               "and the agent could issue all of it (a reset of one lower module alone legitimately strands the requests of the modules "
+               "above it; mid-traffic resets therefore reset the top k modules)",
                "an End for an ID that was never started is not an error (EndTaskOnReset emits unconditionally; consumers ignore it)"],
   trusted=["modelled, not verified: tracing/api.go helpers, registry.go, incoming/outgoingbuffertracer.go hooks",
            "sampled, not modelled: tracing call sites under mem/ (partial)"],
